@@ -1596,6 +1596,7 @@ C07_LEVEL = "proof"
 # ------------------------------------------------------------------------------------------- C17
 
 import re  # noqa: E402
+import collections  # noqa: E402
 
 
 def trace_name(nm):
@@ -2978,7 +2979,9 @@ def split_top(s, sep="|"):
 
 C18_TEXT_KINDS = [("node header", "dot-header"), ("items shown for state", "dot-items"), ("reduce annotations", "dot-reduce"),
                   ("listing shows", "list-header"), ("listing state header", "list-header"), ("listing items", "list-items"),
-                  ("listing transitions", "list-gotos"), ("listing lookahead sets", "list-la")]
+                  ("listing transitions", "list-gotos"), ("listing lookahead sets", "list-la"),
+                  ("listing transition section", "list-trans"), ("listing direct-read sets", "list-dr"), ("listing read sets", "list-rd"),
+                  ("listing follow sets", "list-fo")]
 
 
 # literal characters that are structure characters of a DOT record label and are NOT escaped by the drawing code: a graph
@@ -3036,7 +3039,16 @@ def check_C18(tier):
         ila = sorted(l for l in b if l.startswith("HLISTLA "))
         mla = sorted(l[2:] for l in mb if l.startswith("M HLISTLA "))
         listing_lines += len(il) + len(ila)
-        for what, x, y in (("state section", il, ml), ("lookahead section", ila, mla)):
+        extra = []
+        for tag, what, ordered in (("HLISTTR", "transition section", True), ("HLISTDR", "direct-read section", False),
+                                   ("HLISTRD", "read section", False), ("HLISTFO", "follow section", False)):
+            xi = [l for l in b if l.startswith(tag + " ") or l.startswith(tag + "-MISSING")]
+            xm = [l[2:] for l in mb if l.startswith("M " + tag + " ")]
+            if not ordered:
+                xi, xm = sorted(xi), sorted(xm)
+            listing_lines += len(xi)
+            extra.append((what, xi, xm))
+        for what, x, y in [("state section", il, ml), ("lookahead section", ila, mla)] + extra:
             if x != y:
                 k = next((i for i in range(max(len(x), len(y))) if i >= len(x) or i >= len(y) or x[i] != y[i]), 0)
                 dec = lambda h: bytes.fromhex(h.split(" ", 1)[1]).decode(errors="replace") if " " in h else h
@@ -3164,6 +3176,48 @@ def check_C18(tier):
                 why = "listing lookahead sets differ from the lookaheads used for the table: only in the listing %s; only in the table %s" % (
                     str(sorted(gs - es)[:3])[:400], str(sorted(es - gs)[:3])[:400])
                 readable = bool(got) and all(re.fullmatch(r"\d+:\S+-->.* : .*", x) for x in got)
+        # ---- the sections between the states and the lookaheads: transitions, direct-read, read and follow sets
+        heads = ["===========SHOW TRANS================", "==========Show Direct Read SET===============",
+                 "==========Show Reads SET===============", "==========Show FollowSet SET===============",
+                 "==========Show LookAhead SET==============="]
+        if why is None and all(h in listing for h in heads):
+            def section(i):
+                return [x for x in listing.split(heads[i] + "\n", 1)[1].split(heads[i + 1], 1)[0].split("\n") if x.strip()]
+            ltr = [tuple(int(x) for x in l.split()[1:4]) for l in lines if l.startswith("LTR ")]
+            exp = []
+            for (q_, k, x) in ltr:
+                if k == 1 and x < len(g.rules):
+                    lhs, rhs, _ = g.rules[x]
+                    exp.append("%d:%s-->%s" % (q_, names[lhs], "".join(" %s " % names[y] for y in rhs)))
+                else:
+                    exp.append("%d:%s" % (q_, names.get(x, "?")))
+            got = section(0)
+            wsn = lambda ls: [" ".join(x.split()) for x in ls]
+            if sorted(wsn(got)) != sorted(wsn(exp)):
+                gs, es = collections.Counter(wsn(got)), collections.Counter(wsn(exp))
+                why = "listing transition section differs from the transitions of the automaton: only in the listing %s; only in the automaton %s" % (
+                    str(sorted((gs - es).elements())[:3])[:400], str(sorted((es - gs).elements())[:3])[:400])
+                readable = bool(got) and all(re.fullmatch(r"\d+:\S+(-->( \S+ )*)?", x) for x in got)
+            for si, tag, what in ((1, "LDR", "direct-read"), (2, "LRD", "read"), (3, "LFO", "follow")):
+                if why is not None:
+                    break
+                expS = collections.Counter()
+                for l in lines:
+                    f = l.split()
+                    if f[0] == tag and f[1] != "-1":
+                        expS[(int(f[1]), names.get(int(f[2]), "?"), tuple(sorted(names.get(int(x), "?") for x in f[3:])))] += 1
+                gotS, sec_ok = collections.Counter(), True
+                got = section(si)
+                for x in got:
+                    m = re.fullmatch(r"(\d+)--(\S+)--> \[(.*)\]", x)
+                    if not m:
+                        sec_ok = False
+                        continue
+                    gotS[(int(m.group(1)), m.group(2), tuple(sorted(m.group(3).split())))] += 1
+                if gotS != expS or not sec_ok:
+                    why = "listing %s sets differ from the sets used for the lookaheads: only in the listing %s; only in the computation %s" % (
+                        what, str(sorted((gotS - expS).elements())[:3])[:400], str(sorted((expS - gotS).elements())[:3])[:400])
+                    readable = bool(got) and sec_ok
         if why:
             kind = next((k for pre, k in C18_TEXT_KINDS if why.startswith(pre)), "struct")
             if readable:
@@ -3193,7 +3247,9 @@ def check_C18(tier):
 C18_THEOREMS = ["Y.Props.C18_views", "Y.Props.C18_determines", "Y.Props.C18_determined", "Y.Props.dot_edges", "Y.Props.dot_nodes"]
 C18_THEOREMS += ["Y.Props.C18_listing_states", "Y.Props.C18_listing_la", "Y.Props.C18_listing_determines", "Y.Props.C18_listing_determines_auto",
                  "Y.Props.C18_listing_determined", "Y.Props.C18_listing_mem", "Y.Props.list_item_str_injective", "Y.Props.list_goto_str_injective", "Y.Props.la_line_injective"]
-C18_MODULES = ["Yv.Props.C18", "Yv.Props.C18b"]
+C18_THEOREMS += ["Y.Props.C18_listing_sets", "Y.Props.C18_listing_follow", "Y.Props.C18_listing_trans", "Y.Props.set_line_injective",
+                 "Y.Props.follow_line_injective", "Y.Props.tr_shift_injective", "Y.Props.trReduceStr_prefix"]
+C18_MODULES = ["Yv.Props.C18", "Yv.Props.C18b", "Yv.Props.C18c"]
 C18_LEVEL = "proof"
 
 
